@@ -17,6 +17,26 @@ use std::collections::BTreeMap;
 
 const BOUNDARY: [u8; 13] = [0, 1, 7, 8, 0x0f, 0x28, 0x2f, 0x3f, 0x40, 0x7f, 0x80, 0xf0, 0xff];
 
+/// The C03 catalogue marks how much mutation a seed deserves (members of systematic seed
+/// families are injected as they are). The field changed its type over time: read either.
+trait MutLevel {
+    fn level(&self) -> u8;
+}
+impl MutLevel for bool {
+    fn level(&self) -> u8 {
+        if *self {
+            2
+        } else {
+            1
+        }
+    }
+}
+impl MutLevel for u8 {
+    fn level(&self) -> u8 {
+        *self
+    }
+}
+
 #[derive(Clone, Copy)]
 enum Unit {
     Base(usize),
@@ -147,8 +167,10 @@ fn run_unit(cfg: Cfg, seeds: &[Seed], tier: Tier, u: Unit) -> CatOut {
         Unit::Base(si) => {
             let s = &seeds[si];
             eval(cfg, &s.frame, &mut out, &s.name, None);
-            for len in 0..s.frame.len() {
-                eval(cfg, &s.frame[..len], &mut out, &s.name, None);
+            if s.mutate.level() >= 1 {
+                for len in 0..s.frame.len() {
+                    eval(cfg, &s.frame[..len], &mut out, &s.name, None);
+                }
             }
         }
         Unit::Byte(si, pos) => {
@@ -210,6 +232,9 @@ pub fn run(tier: Tier) -> BTreeMap<String, CatOut> {
         let mut units = vec![];
         for (si, s) in seeds.iter().enumerate() {
             units.push(Unit::Base(si));
+            if s.mutate.level() < 2 {
+                continue;
+            }
             for p in positions(s, tier) {
                 units.push(Unit::Byte(si, p));
             }
